@@ -266,6 +266,22 @@ def c02(ctx):
             ctx.count("maven:spec-vs-jar:exotic-mismatch", len(bade))
             for a, b, sp, r in bade[:10]:
                 ctx.divergence("spec_maven_vs_jar", {"a": a, "b": b, "what": "Spec/MavenSpec.v differs from the installed ComparableVersion (exotic string)"}, r, sp)
+    # tie between dotted strings and the structures of theorem C02_maven_dotted_partial
+    # (strings whose dotted qualifier is last or directly followed by a digit: before a '-' or '.' ComparableVersion does
+    # not open a sub-list for it -- 1.SP-SNAPSHOT is [1, sp, [snapshot]] -- which the element list cannot tell from 1.SP1)
+    dstr = [x for x in mg.uniq([x for pr in DOTTED_PAIRS for x in pr])
+            if re.match(rb"^[0-9]+(\.[0-9]+)*(\.[A-Za-z_]+([0-9].*)?)?$", x)]
+    do = ctx.model("svm_maven_dot_tie", [sx([s]) for s in dstr])
+    ndom = 0
+    for s, l in zip(dstr, do):
+        v = parse_sx(l)
+        if v[0] == b"err" or not v[0]:
+            continue
+        ndom += 1
+        if not v[1]:
+            ctx.divergence("svm_maven_dot_tie", {"str": s, "what": "dashified element list does not stand for the ComparableVersion item tree of the string"}, "equal", l)
+    ctx.count("maven:c02:dotted:tie:strings", len(dstr))
+    ctx.count("maven:c02:dotted:tie:in-theorem-domain", ndom)
     # tie between strings and the structures of theorem C02_maven_partial
     tie_in = mg.uniq([versions.maven_domain(rng, exclude_release_num=True) for _ in range(ctx.scale(1500, 20000))])
     fl = domain_flags(ctx, tie_in)
